@@ -207,6 +207,43 @@ func (g *gcase) iterOp() {
 	}
 }
 
+// cloneTxn: a transaction begun from a tree returned by Txn.Clone(), writing keys the clone holds; mostly
+// abandoned. The clone (and the transaction it was taken from) must not change.
+func (g *gcase) cloneTxn() {
+	if len(g.clones) == 0 {
+		return
+	}
+	c := hx.Pick(g.r, g.clones)
+	base := g.vkeys["c"+c]
+	g.out.P("begin c%s", c)
+	g.cur = cloneSet(base)
+	for i, n := 0, 1+g.r.Intn(4); i < n; i++ {
+		k, ok := g.presentKey(g.cur)
+		if !ok || g.r.Chance(30) {
+			k = g.randKey()
+		}
+		if g.r.Chance(40) {
+			g.out.P("del %s", hx.Hex(k))
+			delete(g.cur, string(k))
+		} else {
+			g.out.P("ins %s %d", hx.Hex(k), g.r.Intn(1000))
+			g.cur[string(k)] = true
+		}
+	}
+	if g.r.Chance(65) {
+		g.out.P("abandon")
+	} else {
+		g.nver++
+		v := fmt.Sprintf("%d", g.nver)
+		g.out.P("commit %s", v)
+		g.versions = append(g.versions, v)
+		g.vkeys[v] = g.cur
+	}
+	g.out.P("chk")
+	g.cur = nil
+	g.out.P("pers")
+}
+
 // txn emits one transaction. mode: 0 mixed, 1 grow, 2 shrink.
 func (g *gcase) txn(nOps int, mode int) {
 	base := g.head
@@ -328,6 +365,9 @@ func (g *gcase) txn(nOps int, mode int) {
 	}
 	g.cur = nil
 	g.out.P("pers")
+	if len(g.clones) > 0 && g.r.Chance(35) {
+		g.cloneTxn()
+	}
 	// reads on old versions / clones / iterators between transactions
 	for i, n := 0, g.r.Intn(4); i < n; i++ {
 		if g.r.Chance(30) {
